@@ -297,3 +297,15 @@ Example demo_case_2 : to_lower [206; 145; 206; 163] = [206; 177; 207; 131].     
 Proof. vm_compute. reflexivity. Qed.
 Example demo_case_3 : lower_cp 304 = [105; 775] /\ upper_cp 329 = [700; 78] /\ upper_cp 411 = [42972] /\ lower_cp 66560 = [66600].
 Proof. vm_compute. repeat split. Qed.
+
+(* what to_number can accept at all: one optional sign, then only characters of 0-9 . e E + - ,
+   or a 3- or 8-byte word equal to inf / infinity / nan up to letter case — so surrounding white
+   space, underscores, digits of other scripts and trailing text give NaN *)
+Theorem C13_to_number_grammar :
+  forall (s : list Z) (x : f64),
+  parse_f64 s = Some x ->
+  exists sgn body, s = sgn ++ body /\ (sgn = [] \/ sgn = [43] \/ sgn = [45]) /\ body <> [] /\
+    (Forall numeric_char body \/
+     ((is_inf_text body = true \/ is_nan_text body = true) /\ (length body = 3 \/ length body = 8)%nat)).
+Proof. exact parse_f64_shape. Qed.
+Print Assumptions C13_to_number_grammar.
